@@ -15,6 +15,7 @@ from moment import MomentGridder
 from props.c06 import build as build_spec, enc_spec
 
 ID = "C20"
+TRANSLATED = "base"        # Gen/Base.lean (check_coordinates, check_fit_input validation) is regenerated from /repo and bridged to the model in Props/C20.lean
 FILES = ["verde/base/utils.py", "verde/base/base_classes.py", "verde/base/least_squares.py", "verde/spline.py", "verde/vector.py", "verde/utils.py",
          "verde/blockreduce.py", "verde/coordinates.py"]
 RULE = ("(a) purity sweep: every public callable / estimator method of the modelled surface is run on fresh writable copies of seeded arguments (bytes "
@@ -384,7 +385,7 @@ def cfi_case(rng):
     elif k == "data-shape":
         data[rng.randrange(ncomp)] = [n - 1]
     elif k == "weight-count":
-        weights = [list(base) for _ in range(ncomp + 1)]
+        weights = [list(base) for _ in range(ncomp + 1 if (ncomp == 1 or rng.random() < 0.5) else ncomp - 1)]
     elif k == "weight-size":
         weights = [list(base) for _ in range(ncomp)]
         weights[rng.randrange(ncomp)] = [n + 2]
